@@ -158,7 +158,7 @@ func (c *c15) run(line []byte, st *stats, out func(mismatch)) {
 		rd, res := ws.Compile(w, nil)
 		brief := map[string]any{"sitekind": cs.SiteKind, "site": cs.Site.String(), "spelling": p.Sp.String(),
 			"expect": map[string]any{"outcome": exp.Outcome, "fqn": exp.FQN, "kind": exp.Kind, "guess": exp.Guess},
-			"src": rd.Src,
+			"src":    rd.Src,
 			"replay": c15case{Ws: cs.Ws, Site: cs.Site, SiteKind: cs.SiteKind, Fqns: cs.Fqns, Refs: cs.Refs, Probes: []c15probe{*p}}}
 		report := func(class, detail string) {
 			out(mismatch{Class: class, Case: brief, Detail: detail})
